@@ -396,7 +396,7 @@ static void runKind(Ctx& c, Rng& rng, const char* kind, unsigned n, const char* 
 	Cfg cfg{ kind, n, elem, fast, isMap, logStart, ff ? ff() : n };
 	if (!fast) runs *= 3;	// slow-hash traits keep hash bits next to the items and reuse them on growth (C12): more histories
 	for (unsigned run = 0; run < runs; ++run) {
-		unsigned fam = (unsigned)rng.below(6);
+		unsigned fam = (unsigned)rng.below(8);
 		static const unsigned ranges[] = { 12, 40, 150, 600 };
 		unsigned keyRange = ranges[rng.below(4)];
 		unsigned nOps = c.thorough ? 1200 : 260;
